@@ -276,6 +276,7 @@ fn run_beh(beh: &Value, args: &Args, notes: &mut Vec<String>) -> Result<(u64, us
                 match op {
                     "action" | "action_fail" => "C07",
                     "poison" => "C06",
+                    "badmerge" => "C05",
                     "bad" => "C10",
                     _ => "C08",
                 },
@@ -466,6 +467,24 @@ fn run_beh(beh: &Value, args: &Args, notes: &mut Vec<String>) -> Result<(u64, us
                     if after != before {
                         return Err(f(si, "C10:state-changed", format!("a refused foreign init changed the committed state")));
                     }
+                }
+                w.txns.insert((r, t), txn);
+            }
+            "badmerge" => {
+                // C05: a forged merge over two concurrent finalize commands must be refused and
+                // must leave the transaction as it was
+                let t = st.u("t");
+                let (l, rr) = (w.uni[&st.u("l")].address(), w.uni[&st.u("rr")].address());
+                let id = ids::merge_id(l.id.as_array(), rr.id.as_array(), w.merge_tag).ok_or_else(|| f(si, "tool:id", "merge id".into()))?;
+                let (l, rr) = if l.id < rr.id { (l, rr) } else { (rr, l) };
+                let m = ACmd::new(id, Priority::Merge, Prior::Merge(l, rr), b'm', "forged");
+                let rep = w.reps.get_mut(&r).unwrap();
+                let mut txn = w.txns.remove(&(r, t)).unwrap_or_else(|| rep.txn());
+                let mut sink = ASink::new();
+                match rep.deliver(&mut txn, &mut sink, std::slice::from_ref(&m)) {
+                    Err(ClientError::ParallelFinalize) => {}
+                    Ok(_) => return Err(f(si, "C05:forged-merge-accepted", "a merge command over two concurrent finalize commands was accepted".into())),
+                    Err(e) => return Err(f(si, "C05:forged-merge-wrong-error", format!("merge over concurrent finalize commands produced {}", err_class(&e)))),
                 }
                 w.txns.insert((r, t), txn);
             }
